@@ -212,7 +212,35 @@ def witnesses(ctx):
         ctx.disagree("C11:harmonic_set:value:2d", desc, [3, -21, 1], np.asarray(r[1].array).tolist(), replay=[desc])
 
 
+def coincident_positions(ctx, n):
+    """cross ratio with a == b at SOME positions only (value 1 there), one of the two given as a single point"""
+    import geometer as g
+    rng = ctx.rng
+    for k in range(n):
+        a0 = np.array([float(rng.randint(-3, 3)), float(rng.randint(-3, 3)), 1.0])
+        d0 = np.array([float(rng.randint(1, 3)), float(rng.randint(-2, 2)), 0.0])
+        xs = [0] + rng.sample([1, 2, -1, 3], 2)                # b_j = a + x_j d, the first one coincides with a
+        cs, ds = rng.sample([4, 5, -2, 6, 7], 3), rng.sample([8, -3, 9, -4, 10], 3)
+        w = [rng.choice([1.0, 2.0, -1.0]) for _ in range(3)]
+        A = g.Point(a0 * rng.choice([1.0, -2.0]))
+        B = g.PointCollection(np.array([(a0 + x * d0) * wi for x, wi in zip(xs, w)]))
+        C = g.PointCollection(np.array([a0 + c * d0 for c in cs]))
+        D = g.PointCollection(np.array([a0 + dd * d0 for dd in ds]))
+        order = rng.choice(["ab", "ba"])
+        desc = f"crossratio single/collection with a coincident position a={a0.tolist()} d={d0.tolist()} x={xs} c={cs} d={ds} order={order}"
+        ctx.case(desc)
+        ctx.count("cr:coincident-position")
+        r = call_impl(lambda: g.crossratio(A, B, C, D) if order == "ab" else g.crossratio(B, A, C, D))
+        exp = []
+        for x, c, dd in zip(xs, cs, ds):
+            x1, x2 = (0, x) if order == "ab" else (x, 0)
+            exp.append(1.0 if x == 0 else (x1 - c) * (x2 - dd) / ((x1 - dd) * (x2 - c)))
+        if r[0] != "ok" or np.shape(r[1]) != (3,) or not np.allclose(np.asarray(r[1], dtype=complex), exp, rtol=1e-8, atol=1e-10):
+            ctx.disagree("C11:crossratio:coincident-position", desc, exp, r[1:3] if r[0] != "ok" else np.asarray(r[1]).tolist(), replay=[desc])
+
+
 def correspondence(ctx):
+    coincident_positions(ctx, ctx.budget(40, 400))
     witnesses(ctx)
     cr_stream(ctx, ctx.budget(300, 5000))
     harmonic_stream(ctx, ctx.budget(300, 5000))
